@@ -421,7 +421,8 @@ Proof.
       destruct (sent + n <? l_chunk (st w2)).
       * destruct (Hw _ _ _ _ _ He Hf2) as [X Y]; [unfold need, cons2 in *; lia|].
         split; [exact X|unfold adv, cons2 in *; lia].
-      * destruct (trigger_fuel _ _ _ _ _ He Hf2) as [X Y]. split; [exact X|unfold adv, cons2 in *; lia].
+      * destruct (trigger_fuel _ _ _ _ _ He) as [X Y]; [fok|].
+        split; [exact X|unfold adv, cons2 in *; rewrite Mh_ghost in Y; lia].
   - destruct (is_eagain e); [inversion He; subst; leaf|].
     destruct (Hc _ _ _ _ _ He Hf1) as [X Y]; [unfold need, cons2 in *; lia|].
     split; [exact X|unfold adv, cons2 in *; lia].
@@ -579,7 +580,8 @@ Proof.
       split; [exact X|unfold adv, cons2 in *; lia].
     + match type of He with (if ?b then _ else _) = _ => destruct b end;
         [|inversion He; subst; split; [exact Hf5|unfold adv, cons2 in *; lia]].
-      destruct (trigger_fuel _ _ _ _ _ He Hf5) as [X Y]. split; [exact X|unfold adv, cons2 in *; lia].
+      destruct (trigger_fuel _ _ _ _ _ He) as [X Y]; [fok|].
+      split; [exact X|unfold adv, cons2 in *; rewrite Mh_ghost in Y; lia].
   - destruct (f_close _ (fblock (S f)) _ _ _ _ _ He Hf4) as [X Y]; [unfold need, adv, cons2 in *; lia|].
     split; [exact X|unfold adv, cons2 in *; lia].
   - inversion He; subst; exact Hfin.
@@ -611,14 +613,12 @@ Qed.
 Lemma inp_emit : forall l w, inp (emit l w) = inp w.
 Proof. intros. unfold emit. destruct (halt w); reflexivity. Qed.
 
-Lemma fopen : forall fuel cid w r w', el_open fuel cid w = (r, w') -> okp 1 0 fuel w w'.
+Lemma fopen_rest : forall fuel cid w2 r w', open_rest fuel cid w2 = (r, w') -> okp 1 0 fuel w2 w'.
 Proof.
-  intros fuel cid w r w' He Hf Hn. rewrite el_open_eq in He. cbv zeta in He.
+  intros fuel cid w r w' He Hf Hn. unfold open_rest in He.
   pose proof (Mh_nonneg w) as Hnn.
-  match type of He with context [handler fuel cid ?ww] =>
-    set (w2 := ww) in *; destruct (handler fuel cid w2) as [[act reply] w3] eqn:Hh end.
-  assert (Hm2 : Mh w2 = Mh w) by (unfold w2; autorewrite with mh; reflexivity).
-  destruct (f_h _ (fblock fuel) _ _ _ _ Hh) as [Hf3 Ha3]; [unfold w2; fok|unfold need in *; lia|].
+  destruct (handler fuel cid w) as [[act reply] w3] eqn:Hh.
+  destruct (f_h _ (fblock fuel) _ _ _ _ Hh Hf) as [Hf3 Ha3]; [unfold need in *; lia|].
   assert (Hfin3 : FOK w3 /\ adv 0 w w3) by (split; [exact Hf3|unfold adv in *; lia]).
   destruct (negb (c_opened (wc w3 cid))); [destruct act; inversion He; subst; exact Hfin3|].
   match type of He with (let '(_, _) := ?X in _) = _ => destruct X as [ok w4] eqn:Hrep end.
@@ -640,20 +640,30 @@ Proof.
       + destruct (fopen_loop _ _ _ _ _ _ Hrep Hf3') as [X Y]; [unfold lenfuel; right; lia|].
         split; [exact X|unfold adv in *; lia]. }
   destruct H4 as [Hf4 Ha4].
-  set (w4e := ghost "openreply-end" cid [] w4) in *.
-  assert (Hm4e : Mh w4e = Mh w4) by apply Mh_ghost. assert (Hf4e : FOK w4e) by (unfold w4e; fok).
-  destruct (negb ok); [inversion He; subst; split; [exact Hf4e|unfold adv in *; lia]|].
+  assert (Hcl : forall e ww rr w9, FOK ww -> adv 0 w3 ww -> el_close fuel cid e ww = (rr, w9) ->
+            FOK w9 /\ adv 0 w w9).
+  { intros e ww rr w9 Hfw Haw E.
+    destruct (f_close _ (fblock fuel) _ _ _ _ _ E Hfw) as [X Y]; [unfold need, adv in *; lia|].
+    split; [exact X|unfold adv in *; lia]. }
+  destruct (negb ok); [eapply Hcl; [exact Hf4|exact Ha4|exact He]|].
   match type of He with (let '(_, _) := ?X in _) = _ => destruct X as [r5 w5] eqn:H5e end.
-  assert (H5 : FOK w5 /\ adv 0 w4e w5).
-  { pose proof (Mh_nonneg w4e). destruct (c_out (wc w4e cid)); [inversion H5e; subst; leaf|].
-    destruct (l_et (st w4e)); [inversion H5e; subst; leaf|].
-    destruct (epctl_fuel _ _ _ _ _ _ _ H5e Hf4e) as [X Y]. split; [exact X|unfold adv, cons2 in *; lia]. }
+  assert (H5 : FOK w5 /\ adv 0 w4 w5).
+  { pose proof (Mh_nonneg w4). destruct (c_out (wc w4 cid)); [inversion H5e; subst; leaf|].
+    destruct (l_et (st w4)); [inversion H5e; subst; leaf|].
+    destruct (epctl_fuel _ _ _ _ _ _ _ H5e Hf4) as [X Y]. split; [exact X|unfold adv, cons2 in *; lia]. }
   destruct H5 as [Hf5 Ha5].
+  assert (Ha35 : adv 0 w3 w5) by (unfold adv in *; lia).
   assert (Hfin5 : FOK w5 /\ adv 0 w w5) by (split; [exact Hf5|unfold adv in *; lia]).
-  destruct r5; try (inversion He; subst; exact Hfin5).
+  destruct r5; try (eapply Hcl; [exact Hf5|exact Ha35|exact He]).
   destruct act; try (inversion He; subst; exact Hfin5).
-  destruct (f_close _ (fblock fuel) _ _ _ _ _ He Hf5) as [X Y]; [unfold need, adv in *; lia|].
-  split; [exact X|unfold adv in *; lia].
+  eapply Hcl; [exact Hf5|exact Ha35|exact He].
+Qed.
+
+Lemma fopen : forall fuel cid w r w', el_open fuel cid w = (r, w') -> okp 1 0 fuel w w'.
+Proof.
+  intros fuel cid w r w' He Hf Hn. rewrite el_open_eq in He. pose proof (Mh_nonneg w) as Hnn.
+  destruct (fopen_rest _ _ _ _ _ He) as [X Y]; [fok|unfold need in *; autorewrite with mh; lia|].
+  split; [exact X|unfold adv in *; autorewrite with mh in *; lia].
 Qed.
 
 Lemma fregister : forall fuel cid w r w', el_register0 fuel cid w = (r, w') -> okp 1 0 fuel w w'.
@@ -774,10 +784,11 @@ Proof.
   intros fuel fd ev w r w' He Hf Hn. unfold dispatch in He. pose proof (Mh_nonneg w) as Hnn.
   destruct (alookup fd (l_reg (st w))) as [cid|].
   - repeat match type of He with (if ?b then _ else _) = _ => destruct b end;
-      first [eapply fprocess_io; eauto | eapply fread_udp; eauto].
+      first [solve [eapply fprocess_io; eauto] | solve [eapply fread_udp; eauto]].
   - destruct (alookup fd (l_listeners (st w))) as [udp|].
     + eapply faccept; eauto.
-    + destruct (epctl_fuel _ _ _ _ _ _ _ He Hf) as [X Y]. split; [exact X|unfold adv, cons2 in *; lia].
+    + destruct (polopt (st w)); [inversion He; subst; leaf|].
+      destruct (epctl_fuel _ _ _ _ _ _ _ He Hf) as [X Y]. split; [exact X|unfold adv, cons2 in *; lia].
 Qed.
 
 Lemma frun_task : forall fuel t w r w', run_task fuel t w = (r, w') -> okp 1 0 fuel w w'.
@@ -925,15 +936,31 @@ Proof.
   - leaf.
 Qed.
 
+Lemma pend_fold_fuel : forall l w, FOK w -> FOK (fold_left pend_step l w) /\ Mh (fold_left pend_step l w) = Mh w.
+Proof.
+  induction l as [|fc l IH]; intros w H; [split; [exact H|reflexivity]|]. cbn [fold_left].
+  assert (H1 : FOK (pend_step w fc) /\ Mh (pend_step w fc) = Mh w).
+  { unfold pend_step. destruct (c_udp (wc w (snd fc))); [split; [exact H|reflexivity]|].
+    split; [fok|apply Mh_emit]. }
+  destruct H1 as [H1 H2]. destruct (IH _ H1) as [H3 H4]. split; [exact H3|lia].
+Qed.
+
+Lemma poll_head_fuel : forall w, FOK w -> FOK (poll_head w) /\ Mh (poll_head w) = Mh w.
+Proof.
+  intros w H. unfold poll_head.
+  match goal with |- FOK (fold_left _ ?l ?ww) /\ _ =>
+    destruct (pend_fold_fuel l ww) as [H1 H2]; [fok|] end.
+  split; [exact H1|]. rewrite H2. apply Mh_emit.
+Qed.
+
 Lemma fpolling : forall fuel w, okp 0 0 fuel w (polling fuel w).
 Proof.
   induction fuel as [|f IH]; intros w Hf Hn.
   { cbn. fuelO. }
   pose proof (Mh_nonneg w) as Hnn.
   destruct (polling_cases f w) as [o [w1 [Hp Hc]]].
-  set (w0 := emit ("g", [ASym "count"; AInt (zlen (l_reg (st w))); ABytes []]) w) in *.
-  assert (Hf0 : FOK w0) by (unfold w0; fok).
-  assert (Hm0 : Mh w0 = Mh w) by apply Mh_emit.
+  set (w0 := poll_head w) in *.
+  destruct (poll_head_fuel w Hf) as [Hf0 Hm0]. fold w0 in Hf0, Hm0.
   destruct (pull_gen_fuel _ _ _ _ Hp Hf0) as [Hf1 Hm1].
   destruct Hc as [[-> ->]|[[evs [-> ->]]|[l [-> ->]]]].
   - split; [exact Hf1|left; exact Hm1].
